@@ -203,4 +203,86 @@ example : (match chebyshevA ⟨[2, 2], gEx [[0, 0], [1, 3]]⟩ ⟨[2, 2], gEx [[
 example : (match hammingA ⟨[2, 2], gEx [[0, 0], [1, 3]]⟩ ⟨[3, 2], gEx [[1, 1], [0, 5], [1, 3]]⟩ true 0 (some 1) with
     | .errValue => true | _ => false) = true := by decide +kernel
 
+/-! ### which floating-point conditions give up the p-norm (third deepening)
+
+`fin` is the predicate "finite" of the scalar type (`Float.isFinite` in the driver); nothing is assumed about it.  The
+fall-back of distance.py l.187-188 / l.35-36 is taken exactly on the model's `overflowed` / `lnormOverflowed`
+condition, which mentions non-finite powers and sums only: a power that UNDERFLOWS (vanishes, becomes denormal) is a
+finite number, so it never triggers the fall-back - however small the differences are, the p-norm is returned. -/
+
+/-- no power and no sum is non-finite => the `FloatingPointError` condition of minkowski is false (whatever `fin` is) -/
+theorem overflowed_false_of_finite (fin : K → Bool) (d t s : NArr K)
+    (ht : ∀ a ∈ t.ravel, fin a = true) (hs : ∀ a ∈ s.ravel, fin a = true) : overflowed fin d t s = false := by
+  unfold overflowed
+  have h1 : (List.zipWith (fun a b => fin a && !fin b) d.ravel t.ravel).any id = false := by
+    rw [List.any_eq_false]
+    intro b hb
+    obtain ⟨i, hi, rfl⟩ := List.mem_iff_getElem.mp hb
+    have hi' : i < t.ravel.length := by
+      simp only [List.length_zipWith] at hi; omega
+    have := ht _ (List.getElem_mem hi')
+    simp [this]
+  have h2 : (t.ravel.all fin && !s.ravel.all fin) = false := by
+    have : s.ravel.all fin = true := by rw [List.all_eq_true]; exact hs
+    simp [this]
+  rw [h1, h2]; rfl
+
+/-- **clause "the point-to-point metrics equal their textbook definitions", underflow side**: whenever every p-th power
+of a coordinate difference and every lane sum is finite - in particular when powers underflow - minkowski (euclidean,
+manhattan) returns the p-th root of the sum of the p-th powers; the infinity norm is NOT substituted. -/
+theorem minkowski_finite_no_fallback (C : Consts K) (fin : K → Bool) (x xp : NArr K) (pair : Bool) (dmin p : Nat)
+    (hp : p ≠ 0) (axis : Option Int) (D : NArr K) (k : Option Nat)
+    (hD : absoluteDistance x xp pair dmin = some D) (hax : resolveAxis D.ndim axis = some k)
+    (ht : ∀ a ∈ (D.map (powN · p)).ravel, fin a = true)
+    (hs : ∀ a ∈ (reduceWith lsum (D.map (powN · p)) k).ravel, fin a = true) :
+    minkowskiA C fin x xp pair dmin p axis = DRes.ok ((reduceWith lsum (D.map (powN · p)) k).map (C.root p)) := by
+  unfold minkowskiA
+  rw [hD]
+  simp only [hax, if_neg hp, overflowed_false_of_finite fin D _ _ ht hs]
+  rfl
+
+/-- the fall-back is taken exactly on the overflow condition, and then the WHOLE result is the infinity norm
+(`d.max(axis=axis)`): also the entries of point pairs whose own powers are finite (finding F66) -/
+theorem minkowski_overflow_fallback (C : Consts K) (fin : K → Bool) (x xp : NArr K) (pair : Bool) (dmin p : Nat)
+    (hp : p ≠ 0) (axis : Option Int) (D : NArr K) (k : Option Nat)
+    (hD : absoluteDistance x xp pair dmin = some D) (hax : resolveAxis D.ndim axis = some k)
+    (ho : overflowed fin D (D.map (powN · p)) (reduceWith lsum (D.map (powN · p)) k) = true) :
+    minkowskiA C fin x xp pair dmin p axis = chebyshevA x xp pair dmin axis := by
+  unfold minkowskiA chebyshevA
+  rw [hD]
+  simp only [hax, if_neg hp, ho, if_true]
+
+/-- `Lnorm` likewise: finite powers and a finite sum => the p-norm `lnorm` (characterised by `lnorm_pow`, `lnorm_one`) -/
+theorem lnorm_finite_no_fallback (C : Consts K) (fin : K → Bool) (ws : List K) (p : Nat)
+    (ht : ∀ w ∈ ws, fin (powN w p) = true) (hs : fin (lsum (ws.map fun x => absR (powN x p))) = true) :
+    lnormA C fin ws p = lnorm C ws p := by
+  unfold lnormA
+  by_cases hp : p = 0
+  · simp [hp]
+  · have h1 : (List.zipWith (fun a b => fin a && !fin b) ws (ws.map (powN · p))).any id = false := by
+      rw [List.any_eq_false]
+      intro b hb
+      obtain ⟨i, hi, rfl⟩ := List.mem_iff_getElem.mp hb
+      have hi' : i < ws.length := by
+        simp only [List.length_zipWith, List.length_map] at hi; omega
+      have := ht _ (List.getElem_mem hi')
+      simp [this]
+    have h : lnormOverflowed fin ws p = false := by
+      unfold lnormOverflowed
+      rw [h1, hs]; simp
+    simp [hp, h]
+
+/-- and on the overflow condition `Lnorm` is the infinity norm `max |w|` (`lnorm_inf`) -/
+theorem lnorm_overflow_fallback (C : Consts K) (fin : K → Bool) (ws : List K) (p : Nat) (hp : p ≠ 0)
+    (ho : lnormOverflowed fin ws p = true) : lnormA C fin ws p = lnormInf ws := by
+  unfold lnormA
+  simp [hp, ho]
+
+/-- the hypotheses of the no-fall-back theorems are satisfiable with a `fin` that is NOT constantly true, and the
+overflow condition by a concrete instance: with "finite" = "below 100" over ℚ the weights (3, 4) keep the 2-norm
+(sum of squares 25), the weights (3, 40) fall back to the infinity norm 40 -/
+example : lnormA (⟨0, 0, id, fun _ t => t⟩ : Consts ℚ) (fun t => decide (t < 100)) [3, 4] 2 = 25 ∧
+    lnormA (⟨0, 0, id, fun _ t => t⟩ : Consts ℚ) (fun t => decide (t < 100)) [3, 40] 2 = 40 := by
+  constructor <;> decide +kernel
+
 end MysticVerif.C18
